@@ -91,7 +91,7 @@ let handle (p : string) : string =
     Buffer.contents out ^ "class=" ^ String.concat "/" (List.rev !classes)
   | _ -> "bad-payload"
 
-(* ---- histories: H cap op op ...  with op one of: S[FI][nfi]  P:pop  Rk  R*  A  X:tok ---- *)
+(* ---- histories: H cap op op ...  with op one of: S[FI][nfi]  P:pop  Rk  R*  A  D (destroy the agent, make a new one)  X:tok ---- *)
 let event_s ((p, u) : (n * bool) * n list) : string =
   let (id, st) = p in
   Printf.sprintf "E%s:%s:%s" (string_of_n id) (bool01 st)
@@ -135,6 +135,7 @@ let handle_h (cap : int) (ops : string list) : string =
       sync_events before
     | 'P' -> pop := parse_pop (String.sub op 2 (String.length op - 2))
     | 'A' -> incr nabort; push "A"; ss := s_abort !ss; sync_events before
+    | 'D' -> incr nabort; push "D"; ss := s_destroy !ss; sync_events before
     | 'X' -> ignore (reply_with (Some (parse_tok (String.sub op 2 (String.length op - 2)))))
     | 'R' ->
       let k = if op = "R*" then max_int else ios (String.sub op 1 (String.length op - 1)) in
